@@ -12,8 +12,8 @@ def jobs(tier):
     cfgs = [('westmere', (), '.sse'), ('haswell', ('__SANITIZE_ADDRESS__',), '.avx2-san'), ('westmere', ('__SANITIZE_ADDRESS__',), '.sse-san')]
     for cfg, defs, tg in cfgs:
         main = (tg == '.sse')
-        J += parsefam.jobs('C15', 5, tier, defines=defs, want=('free', 'str', 'ws') if main else ('free',), nmax=(4 if q else 6) if main else (3 if q else 5), config=cfg, tagx=tg)
-        for j in c11.jobs(tier, pid='C15' + tg + '.od', mode=1, config=cfg, defines=defs, nmax=(5 if q else 7) if main else (4 if q else 6), small=True):
+        J += parsefam.jobs('C15', 5, tier, defines=defs, want=(('free', 'str') if q else ('free', 'str', 'ws')) if main else ('free',), nmax=(3 if q else 6) if main else (2 if q else 5), config=cfg, tagx=tg)
+        for j in c11.jobs(tier, pid='C15' + tg + '.od', mode=1, config=cfg, defines=defs, nmax=(4 if q else 7) if main else (3 if q else 6), small=True):
             if re.search(r'\.p(0|1|2|5|12)$', j.name): J.append(j)
     return J
 
